@@ -1143,6 +1143,28 @@ func handedOnSomewhere(ei *errInfo) bool {
 }
 
 func firstPos(b *ssa.BasicBlock) token.Pos {
+	if p := firstPos1(b); p.IsValid() {
+		return p
+	}
+	// a loop header of position-less bookkeeping: where it goes next
+	seen := map[*ssa.BasicBlock]bool{b: true}
+	work := append([]*ssa.BasicBlock{}, b.Succs...)
+	for n := 0; len(work) > 0 && n < 8; n++ {
+		s := work[0]
+		work = work[1:]
+		if seen[s] {
+			continue
+		}
+		seen[s] = true
+		if p := firstPos1(s); p.IsValid() {
+			return p
+		}
+		work = append(work, s.Succs...)
+	}
+	return token.NoPos
+}
+
+func firstPos1(b *ssa.BasicBlock) token.Pos {
 	for _, i := range b.Instrs {
 		if i.Pos().IsValid() {
 			return i.Pos()
